@@ -338,6 +338,9 @@ func confirmViolation(bin, prop string, v violationRec) (string, *replayVerdict,
 		}
 	}
 	dir := filepath.Join(verifDir(), "replays")
+	if v := os.Getenv("VERIF_REPLAY_DIR"); v != "" {
+		dir = v
+	}
 	os.MkdirAll(dir, 0o755)
 	dst := filepath.Join(dir, fmt.Sprintf("%s-%d.json", prop, v.Seed))
 	cb, err := os.ReadFile(use)
